@@ -93,7 +93,12 @@ def reference(case, cert, world):
         eff = {"u3": "CERT_REQUIRED", "nocheck-required": "CERT_REQUIRED", "none": "CERT_NONE"}[ctxkind]
     else:
         eff = "CERT_REQUIRED"
-    trusted = case["issuer"] == "trusted" and case["trust"] in ("file", "data", "ctx")
+    # the chain is good iff the issuer is among the CAs the SETTINGS say are to be used: the configured ones
+    # (file / data / the caller's context), or - only when nothing is configured and urllib3 builds the context
+    # itself - the system default store
+    trusted = (case["issuer"] == "trusted" and case["trust"] in ("file", "data", "ctx")) or \
+        (case["issuer"] == "system" and case["trust"] == "none" and case["ssl_context"] is None and case["backend"] == "ssl")
+    # (the pyOpenSSL context has no load_default_certs(): with that backend the default store is never consulted)
     fp = case["assert_fingerprint"]
     ah = case["assert_hostname"]
     target = None
@@ -174,8 +179,8 @@ def right_name_for(cert):
 
 def execute(case, world):
     pid, ckw, host, _ = next(p for p in PAIRS if p[0] == case["pair"])
-    trusted = case["issuer"] == "trusted"
-    cert = world.cert("%s-%s" % (pid, "t" if trusted else "u"), trusted=trusted, **ckw)
+    trusted = "system" if case["issuer"] == "system" else case["issuer"] == "trusted"
+    cert = world.cert("%s-%s" % (pid, "s" if trusted == "system" else ("t" if trusted else "u")), trusted=trusted, **ckw)
     case = dict(case, host=host, right_name=right_name_for(cert))
     verdict, detail = reference(case, cert, world)
     kw = build_kw(case, cert, world)
@@ -328,6 +333,12 @@ def lattice(thorough, backend):
                                 if not thorough and iss == "untrusted" and t in ("data", "ctx"):
                                     continue
                                 add(cert_reqs=r, trust=t, assert_hostname=ah, assert_fingerprint=fp, ssl_context=ctx, issuer=iss, pair=pair)
+    # block 1b: a certificate whose issuer is in the system default store only, against every way of configuring trust
+    for r in reqs:
+        for t in trusts + (["ctx"] if backend == "ssl" else []):
+            for ctx in ctxs:
+                for ah in (None, False):
+                    add(cert_reqs=r, trust=t, ssl_context=ctx, issuer="system", assert_hostname=ah, pair="exact")
     # block 2: SAN shape x host form x server_hostname on the settings that decide who checks the name
     for pair in pairs:
         for sh in shs:
